@@ -152,7 +152,7 @@ def michael (key da sa : Bytes) (prio : UInt8) (data : Bytes) : Bytes :=
   let m := da ++ sa ++ [prio, 0, 0, 0] ++ data ++ [0x5a, 0, 0, 0, 0]
   let m := m ++ List.replicate ((4 - m.length % 4) % 4) 0
   let (l, r) := (List.range (m.length / 4)).foldl (fun lr k => michaelBlock lr (le32Of m (4 * k))) (le32Of key 0, le32Of key 4)
-  le32 l ++ le32 r
+  le32 l.toBitVec ++ le32 r.toBitVec
 
 /-! ### CCMP (11.4.3) over the MAC header bytes `h` (24, 26, 30 or 32 bytes) -/
 
